@@ -3,6 +3,7 @@ looks at it, so that the rules see one spelling whichever the source uses.
 
   range(0, n)                      ->  range(n)
   <constant> == x  /  != x         ->  x == <constant>  /  x != <constant>
+  b == a  (no constant, no call)   ->  a == b   with the textually smaller side first
   if not c: A else: B              ->  if c: B else: A            (plain if/else; elif chains are left alone)
   x[i] = x[i] op e                 ->  x[i] op= e                 (subscript targets without calls; same __setitem__)
   t = e ; return t                 ->  return e                   (t bound once, read once, statements adjacent)
@@ -77,6 +78,11 @@ class _Exprs(ast.NodeTransformer):
         self.generic_visit(node)
         if len(node.ops) == 1 and isinstance(node.ops[0], (ast.Eq, ast.NotEq)) and isinstance(node.left, ast.Constant) and not isinstance(node.comparators[0], ast.Constant):
             node.left, node.comparators = node.comparators[0], [node.left]
+        elif len(node.ops) == 1 and isinstance(node.ops[0], (ast.Eq, ast.NotEq)) and not isinstance(node.left, ast.Constant) and not isinstance(node.comparators[0], ast.Constant) and not _has_call(node):
+            # two non-constant sides: the textually smaller one first (== and != of names, attributes and subscripts
+            # are symmetric for the scalars and arrays compared in this code base)
+            if ast.unparse(node.comparators[0]) < ast.unparse(node.left):
+                node.left, node.comparators = node.comparators[0], [node.left]
         return node
 
     def visit_If(self, node):
@@ -130,10 +136,10 @@ def _inline_temps(fn):
                     t = a.targets[0].id
                     if t in params or stores.get(t) != 1 or loads.get(t) != 1:
                         continue
-                    if isinstance(a.value, (ast.Name, ast.Constant, ast.Attribute)):
-                        continue  # aliases (x, obj.attr) and constants are not temporaries of an expression
-                    if isinstance(b, ast.Return) and isinstance(b.value, ast.Name) and b.value.id == t:
+                    if isinstance(b, ast.Return) and isinstance(b.value, ast.Name) and b.value.id == t and not isinstance(a.value, (ast.Name, ast.Constant)):
                         b.value = a.value
+                    elif isinstance(a.value, (ast.Name, ast.Constant, ast.Attribute)):
+                        continue  # aliases (x, obj.attr) and constants are not temporaries of an expression
                     elif isinstance(b, (ast.Assign, ast.AugAssign, ast.Return, ast.Expr)) and b.value is not None:
                         lm = _leftmost(b.value)
                         if not (isinstance(lm, ast.Name) and lm.id == t):
